@@ -15,7 +15,7 @@ import (
 func init() {
 	fw.Register(&fw.Check{
 		ID: "C20", Level: "model_checking",
-		Rule:   "accepted documents = JSIGHT + closed selections of 1..2 (quick) / 1..3 (thorough) pool blocks (self-delimiting rendering); each x every fresh declaration (TYPE of each notation, ENUM, SERVER, TAG, unused MACRO, method on an unrelated path, URL block on an unrelated path, JSON-RPC block) x every insertion point between top-level declarations; and deletion of every top-level declaration nothing refers to; non-trivial = accepted base; distinct = distinct edited texts",
+		Rule:   "accepted documents = JSIGHT + closed selections of 1..2 (quick) / 1..3 (thorough) pool blocks (self-delimiting rendering); each x every fresh declaration (TYPE of each notation, ENUM, SERVER, TAG, unused MACRO, method on an unrelated path, URL block on an unrelated path, JSON-RPC block) x every insertion point between top-level declarations; and deletion of every top-level declaration nothing refers to; non-trivial = accepted base; distinct = distinct edited texts ; fresh types inheriting from / referring to existing types; unused macros holding declarations or pasting a fresh macro; every selection also in reversed declaration order",
 		Assume: []string{"entries are compared as canonical JSON text per collection key; interaction-id lists in tag entries as sets (C10)"},
 		Run:    runC20, QuickCap: 6 * time.Minute, ThoroughCap: 40 * time.Minute,
 	})
